@@ -730,7 +730,7 @@ func (f *GFunc) localNames() []string {
 						break
 					}
 					n := t[a+2 : a+2+b]
-					if n != f.Name {
+					if n != f.Name && !(f.Family == "wrapper" && "Wrap"+n == f.Name) {
 						add(n)
 					}
 					t = t[a+2+b+2:]
@@ -744,6 +744,11 @@ func (f *GFunc) localNames() []string {
 
 // GenProgram builds a package with nExec executable functions and nRaw raw-family functions.
 func GenProgram(r *Rng, pkg string, nExec, nRaw int) *GProg {
+	return GenProgramW(r, pkg, nExec, nRaw, false)
+}
+
+// GenProgramW: with wrappers=true every recursive function is also referenced from a second function.
+func GenProgramW(r *Rng, pkg string, nExec, nRaw int, wrappers bool) *GProg {
 	imps := map[string]bool{}
 	p := &GProg{Pkg: pkg}
 	var sib []string
@@ -766,7 +771,7 @@ func GenProgram(r *Rng, pkg string, nExec, nRaw int) *GProg {
 	// every recursive function is also referenced from a second function (a public wrapper around a
 	// self-recursive helper): a reference to F from inside F and from outside must not interfere
 	for _, f := range append([]*GFunc{}, p.Funcs...) {
-		if f.Family == "recursion" {
+		if wrappers && f.Family == "recursion" {
 			p.Funcs = append(p.Funcs, &GFunc{Name: "Wrap" + f.Name, Family: "wrapper", Params: []GParam{{"n", TInt}}, Results: []GType{TInt},
 				Body: []GStmt{SRaw{"return §" + f.Name + "§(§n§) + 1"}}})
 		}
